@@ -127,6 +127,8 @@ MonFree(s, e) ==
           <<"C03", e.res = "panic", <<"FreeFrame panicked", e.f>> >>,
           <<"C03", e.res = "ok", <<"free of an unmanaged or already-free frame accepted", e.f>> >>,
           <<"C03", e.res \notin {"ok", "panic"} /\ ~Totals(s, e, Cardinality(s.held)), "rejected free changed the totals">>,
+          <<"C03", e.res \notin {"ok", "panic"} /\ e.lock # 0,
+                   "rejected free did change something: it left the allocator locked, no frame can be allocated or freed any more">>,
           <<"C09", e.res \notin {"ok", "panic"} /\ e.lock # 0, "lock still held after FreeFrame returned">> >>]
 
 Mon(s, e) ==
